@@ -129,7 +129,7 @@ def _build(stack, net, cfg):
     raise AssertionError(stack)
 
 
-def _run_one(stack, op_i, shape_i, A, state, cfg, first=None):
+def _run_one(stack, op_i, shape_i, A, state, cfg, first=None, attempts=1):
     vclock.fresh()
     servers, _ = ops.fresh_servers(1)
     srv = servers[ops.ADDR1]
@@ -158,10 +158,14 @@ def _run_one(stack, op_i, shape_i, A, state, cfg, first=None):
         except Exception as e:
             r0 = ("raise", type(e).__name__)
     net.begin_call(2 if first is not None else 1)
-    try:
-        r = ("ret", OPS[op_i][1][shape_i](c, A))
-    except Exception as e:
-        r = ("raise", type(e).__name__)
+    for attempt in range(attempts):      # attempts > 1: the reference for RetryingClient (repeat a call that raised, C17)
+        try:
+            r = ("ret", OPS[op_i][1][shape_i](c, A))
+            break
+        except Exception as e:
+            r = ("raise", type(e).__name__)
+            if OPS[op_i][0] == "dict" and type(e) is KeyError:
+                break        # raised by __getitem__ itself for a miss, outside the retried inner get
     if first is not None:
         r = (r[0], (r0, r[1]))
     cmds = [repr(x) for x in srv.cmdlog]
@@ -197,13 +201,13 @@ def h_diff(op: int, shape: int, nr: int, state: int, preset: int, explicit: bool
     with notrace():
         B.RECV_SIZE = 4096
         cfg = CONFIGS[CFG]
-        ref = _run_one("client", op, shape, A, state, cfg)
+        # RetryingClient(attempts=2) repeats a method call that raised (C17; in dict-style access the inner get/set/delete is what is retried): its reference
+        # is the plain Client making the same call again after a failure
+        ref = _run_one("client", op, shape, A, state, cfg, attempts=2 if STACK == "retrying" else 1)
         got = _run_one(STACK, op, shape, A, state, cfg)
         if ref[3] or got[3]:
             return viol(STACK, CFG, name, shape, "monitor:", (ref[3] + got[3])[0])
         want_cmds = ref[1]
-        if STACK == "retrying" and ref[0][0] == "raise" and name != "dict":
-            want_cmds = ref[1] * 2      # RetryingClient(attempts=2) repeats a method call that raised (C17)
         if want_cmds != got[1]:
             return viol(STACK, CFG, name, "shape", shape, "args", A, "state", state, ": Client sent", ref[1], "but", STACK, "sent", got[1])
         if ref[0][0] != got[0][0] or ref[0][1] != got[0][1] or type(ref[0][1]) is not type(got[0][1]):
